@@ -20,34 +20,30 @@ CLAIMS = {
    text='Static must-analysis over the MIR (all paths incl. loops) of the representation invariants that polynomial equality relies on: Lc never escapes with a possibly-zero coefficient stored and MultiDeg never with a zero exponent - every dirtying event (field write, &mut into the map given to a non-preserving method, documented-dirty add_pair*) reaches clean()/reduce() before the value is returned or moved; raw construction only at reviewed, mechanically justified sites; fields private; callers of the dirty API workspace-wide are checked. By induction over the API equality, is_zero, term count are those of the mathematical object after any operation sequence. Ring axioms, evaluation homomorphism and order compatibility are NOT decided.',
    ref='DESIGN.md §3 E1; §4 C16',
    note='Trusted: container-method preservation table; received values clean by induction; unwinding paths not considered.'),
- 'C01': dict(cat='other', tech='static analysis: typestate dataflow for cobordism/tangle normal form (more clauses follow)',
-   text='Static analysis of structural necessary conditions of C01 only - the isomorphism with the cube-of-resolutions homology is NOT decided. Decided for every path: Tng and Cob (hash-map keys of the linear combinations that make up the differential) keep their sorted normal form: every mutation of the component vector reaches normalize() before the value escapes, literals only after sorting, fields private.',
-   ref='DESIGN.md §3 E1; §4 C01',
-   note='Trusted: Vec order-preserving method table; values received from outside are normalised (induction).'),
- 'C11': dict(cat='other', tech='static analysis: guard live-range dataflow, call-graph reachability to rayon, dominance/must-pass-through on MIR',
-   text='Static analysis that holds for EVERY thread interleaving because it is a property of the code: the shared pivot table is written only inside the critical section that validated the choice (write() -> update_diff(&*guard) -> no-retry edge of should_retry() -> set(), one guard, never dropped in between; retry edge re-acquires and refreshes the snapshot first), no lock/cell is re-acquired while one of its guards can be alive, and no rayon entry is reachable while a thread-local RefCell borrow or the write guard is alive (work stealing would otherwise double-borrow or self-deadlock on some schedules). That the committed pivot set is acyclic for all inputs (completeness of the conflict test) is NOT decided, nor are pivot-condition values.',
-   ref='DESIGN.md §3 E5; §4 C11',
-   note='Trusted: MIR drop elaboration; over-approximating call graph (CHA, closures invocable where passed); only rayon spawns parallel work.'),
- 'C12': dict(cat='other', tech='static analysis: guard live-range dataflow + call-graph reachability to rayon over MIR',
-   text='Static analysis of the concurrency structure of the sparse kernels, valid for one thread and many alike: the thread-local scratch vector of the triangular solver is never borrowed across a call that can reach rayon, and the union-find mutex of the block splitter is never re-locked while a guard on it is alive. The numerical clauses (A*X = Y, S = D - C A^-1 B, transfer-map identities, block decomposition, scratch returning to zero) are NOT decided.',
-   ref='DESIGN.md §3 E5; §4 C12',
-   note='Trusted: as C11.'),
- 'C09': dict(cat='other', tech='static analysis: path-sensitive symbolic summaries of the mirroring wrappers, who-may-write and ordering checks, float taint over MIR',
-   text='Static analysis of necessary conditions of D = P*A*Q, P*P^-1 = I, Q*Q^-1 = I for every matrix and every subset of the transform flags: every elementary row/column operation on the working matrix is mirrored into the requested companions with the same resp. inverse operation (indices, inverted/negated scalar, adjugate 2x2 block), only the wrappers mutate the working matrix, the phases run in the required order, every 2x2 block passed in is a Bezout block of determinant 1, and the exact divisions involve no float at any magnitude. That D is diagonal with a divisibility chain, its agreement with minors, and termination are NOT decided.',
-   ref='DESIGN.md §3 E6, E2; §4 C09',
-   note='Trusted: Mat elementary operations do what their names say; gcdx returns Bezout coefficients.'),
- 'C10': dict(cat='other', tech='static analysis: path-sensitive symbolic summaries of the mirroring wrappers, who-may-write, float taint over MIR',
-   text='Static analysis of necessary conditions of H = P*A, P*P^-1 = I (and B = P*A for LLL) for every input: swap / unit scaling / row addition on the basis and the HNF row reversal are mirrored into P and, inverted, into P^-1 on every path where they are requested; nothing else mutates the basis; the nearest-integer quotient used for size reduction is float-free (exact for hundreds of digits). Echelon form, reducedness, the Lovasz condition and termination are NOT decided.',
-   ref='DESIGN.md §3 E6, E2; §4 C10',
-   note='Trusted: as C09.'),
- 'C20': dict(cat='other', tech='static analysis: call-graph reachability (who-may-call, no-stdout-before-error), path summaries of main/guard, path-sensitive dispatch-table extraction over MIR',
-   text='Static analysis of the ykh binary for every option combination and every failure, without running it: all command dispatches execute inside the panic guard, the guard maps unwinding panics to Err, main writes the table only on the Ok arm and exits non-zero with nothing on stdout on the Err arm, no stdout write is reachable from dispatch (never a partial table before an error), no panic=abort profile; the macro-expanded (-t,-c) dispatch of kh and ckh instantiates App::<T>::run with exactly the documented ring for each (coefficient type, polynomial variables) pair, and every documented pair is present (thorough: also for the i128 and BigInt builds). That the printed cells equal the library values is NOT decided.',
-   ref='DESIGN.md §3 E10; §4 C20',
-   note='Trusted: over-approximating call graph; process::exit semantics; documented table A8 in DESIGN.md.'),
- 'C18': dict(cat='other', tech='static analysis: convention tables read off MIR path summaries and cross-checked (sibling agreement)',
-   text='Static cross-check, valid for every diagram, of the conventions that link traversal, crossing signs, resolutions, mirroring and braid closures rely on: the tables encoded in pass / arcs / resolve / mirror / the sign match / ori_pres_state / the braid-closure crossing codes are extracted from the MIR of the functions themselves and must agree with each other (involution and orbit structure, mirror/bit duality, sign parity under mirror and reversal, in/out pairing of the Seifert smoothing, counter-clockwise top-entry braid codes with the generator sign). That components partition the edge set of every PD code and that closures have the right component count are NOT decided.',
-   ref='DESIGN.md §3 E7; §4 C18',
-   note='Trusted: PD-code convention (index 0 = incoming under end, counter-clockwise); Sign::is_positive by name.'),
+ 'C01': dict(cat='other', tech='static analysis: normal-form typestate, symmetric-update check, affine formula extraction, relation tables read from MIR decision trees and verified by exact polynomial arithmetic, guard live-range analysis',
+   text='Static analysis of structural necessary conditions of C01 only - the isomorphism with the cube-of-resolutions homology is NOT decided. Decided for every path, every (h,t) and every schedule: Tng/Cob keep their sorted normal form (they are hash-map keys of the differential), the doubly stored adjacency is updated symmetrically, the two genus recomputations and the Euler/degree formulas are the published affine forms, the complex and the transported cycles use the same elimination formula d - c a^-1 b in that operand order, the Bar-Natan relation tables (neck cutting, XY = t, X^2 = hX + t, Y^2 = -hY + t, closed evaluations, zero/unit predicates, delooping dual basis) are identities of Z[h,t][X]/(X^2-hX-t), and the write guard of connect_edges is neither re-acquired nor held across a rayon entry.',
+   ref='DESIGN.md §3 E1, E13, E8, E9, E5; §4 C01',
+   note='Trusted: Vec order-preserving method table; Frobenius algebra and grading as stated in the property anchor; finite grid justified by the thresholds (0,1,2, parity) the code compares against.'),
+ 'C04': dict(cat='other', tech='static analysis: affine formula extraction from MIR and sibling agreement',
+   text='Static sibling-agreement check of the two independent encodings of the grading conventions on which chi_q(Kh) = Jones depends: the global shift (-n_neg, n_pos - 2 n_neg [+1 reduced]) versus the Jones prefactor (-1)^{n_neg} q^{n_pos - 2 n_neg}, and the generator bidegree (h0 + |s|, q0 + sum deg + #circles + |s| with deg 1 = 0, deg X = -2) versus the state-sum weight (-q)^{|s|} (q + q^-1)^{#circles}. A disagreement breaks the identity on every diagram with a crossing. The identity itself, isotopy invariance and q -> q^-1 under mirroring are NOT decided.',
+   ref='DESIGN.md §3 E8; §4 C04',
+   note='Trusted: atoms identified by their accessor (signed_crossing_nums, weight, label length).'),
+ 'C05': dict(cat='other', tech='static analysis: rewrite rules read from the MIR decision tree of part_eval, verified by exact polynomial arithmetic on a finite grid (induction step)',
+   text='Static verification that every rewriting step applied to cobordisms (the only place where ring parameters enter the differential) is an identity of Z[h,t][X]/(X^2-hX-t) and homogeneous for deg X = Y = handle = -2, deg h = -2, deg t = -4, that no case falls through, and that cobordism degree is chi - e/2 - 2 dots: necessary for d.d = 0, for degree-0 homogeneity over any commutative ring (polynomial parameters included) and for compatibility with specialisation. d.d = 0 itself, the homological degree and equality of homologies after evaluation are NOT decided.',
+   ref='DESIGN.md §3 E9, E8; §4 C05',
+   note='Trusted: the algebra and grading named in the property; the grid covers every threshold the code compares against.'),
+ 'C06': dict(cat='other', tech='static analysis: affine formula agreement, must-precede / who-may-call over MIR paths and call graph, delooping table check',
+   text='Static analysis of structural necessary conditions: ss = 2d + w - r + 1 is the same affine form over the same atoms at all five sites; canonical cycles are transported before the complex is rewritten at every deloop and elimination and the rewriting functions are reachable only through those wrappers; cycles are delooped with the same death dots and eliminated with the same formula as the complex. Non-torsion of the classes, rank 2^components, diagram independence, mirror sign and the crossing-change inequality are NOT decided.',
+   ref='DESIGN.md §3 E8, E12, E9; §4 C06',
+   note='Trusted: published ss formula; call graph over-approximation.'),
+ 'C13': dict(cat='other', tech='static analysis: sibling agreement of index-offset tables and fold orders read from MIR; float taint',
+   text='Thin: three structural clauses only. The four-way split subtracts exactly the offsets that recombination adds (block by block), a composed transform multiplies its factors in the same order collapsed and uncollapsed, and no container operation returns/branches on/stores a float-derived value. The entries produced by the remaining operations are NOT decided.',
+   ref='DESIGN.md §3 E8 F8, E10b; §4 C13',
+   note='Trusted: Iterator::rev/fold semantics.'),
+ 'C19': dict(cat='other', tech='static analysis: who-may-write on the involution key map, symmetry of the pair helpers, literal key tables, formula agreement',
+   text='Thin: tau must be an involution on keys for the cone of 1 + tau to be a complex. Decided: single key-map entries are written only through the two pair helpers, both symmetric in (k, tau k); the literal key tables are the coordinate swap and the identity; connecting combines pairs componentwise; both involutive s-invariants use 2d + w - r + 1 over the same atoms. That the homology is that of the mapping cone, agreement with ordinary Kh, s0 <= s1 and mirror behaviour are NOT decided.',
+   ref='DESIGN.md §3 E7b, E8; §4 C19',
+   note='Trusted: HashMap semantics.'),
 }
 
 NA = {
